@@ -163,7 +163,7 @@ Section Query.
   Variable filtered : bool.                    (* WHERE or RANGE present: the cursor wraps the merge into a fiterator *)
   Variable flt : oev -> bool.                  (* fltF(&le) && fitInRange() *)
   Variable choose : nat -> list (option oev) -> nat.   (* which non-exhausted source the merge delivers next *)
-  Variable strict : bool.                      (* GetOrCreate never re-positions a cached cursor (see get_or_create) *)
+  Variable strict : bool.                      (* GetOrCreate never re-positions a cached cursor (see get_or_create): true = the code *)
 
   (* Get on every source (Mixer.selectState down the tree) *)
   Fixpoint poll (st : store) (i : nat) (ls : list lei) : list lei * list (option oev) :=
@@ -294,8 +294,9 @@ Section Query.
 
   Definition evict_all (pv : provider) : provider := mkProv [] (pv_next pv).     (* sweepByTime with every idle cursor expired *)
 
-  (* GetOrCreate. `strict` = the provider drops a cached cursor whose position differs from the requested one and
-     builds a new one under the same id (proposed fix); the unchanged tree re-positions the cached cursor *)
+  (* GetOrCreate. `strict` = the provider closes and drops a cached cursor whose position differs from the requested
+     one and builds a new one under the same id (the code); `strict = false` = the code before that repair, which
+     re-positioned the cached cursor with ApplyState -> SetPos under the events it had read ahead *)
   Definition get_or_create (st : store) (pv : provider) (id : N) (pos : pos_t) (cache : bool) : provider * cursor :=
     let cached := if (0 <? id)%N then cache_get id (pv_cache pv) else None in
     let stale := match cached with Some c => strict && negb (pos_t_eqb (cu_pos c) pos) | None => false end in
@@ -435,6 +436,11 @@ Definition eff_flt (filtered : bool) (flt : oev -> bool) (ev : oev) : bool := if
 (* the merge picks a source that has an event whenever some source has one *)
 Definition choose_valid (choose : nat -> list (option oev) -> nat) : Prop :=
   forall t hs k ev, nth_error hs k = Some (Some ev) -> exists ev', nth_error hs (choose t hs) = Some (Some ev').
+(* the merge order is a function of the heads alone (it does not depend on how many selections the cursor has made
+   before): true of model.GetEarliest over a fixed tree of sources; it is what makes a cursor built anew at a position
+   merge like the cursor that stood there *)
+Definition merge_by_heads (choose : nat -> list (option oev) -> nat) : Prop :=
+  forall t t' hs, choose t hs = choose t' hs.
 (* the last page came back with fewer events than its (clamped) limit: the read reached the end *)
 Fixpoint last_page_short (steps : list pstep) (rs : list result) : Prop :=
   match steps, rs with
@@ -488,6 +494,6 @@ Definition flt_of (q : qfilter) (ev : oev) : bool :=
 (* the behaviour of the tree under check: true = LogEvent.Unmarshal resets Fields when the record has none (the
    code); false = it left Fields of the previous record in place (the code before the repair) *)
 Definition repo_clears_fields : bool := true.
-(* false = provider.GetOrCreate re-positions a cached cursor when the request names another Pos (unchanged /repo);
-   flip to true when the proposed provider fix (proposed_fixes/C03-stale-peek-on-retried-page) is applied *)
-Definition repo_strict_pos : bool := false.
+(* true = provider.GetOrCreate drops a cached cursor when the request names another Pos than the cursor's and builds a
+   new one (the code); false = it re-positioned the cached cursor (the code before the repair) *)
+Definition repo_strict_pos : bool := true.
